@@ -29,12 +29,21 @@ Proof.
   pose proof (mod_1000_of_field (utc + off)) as M. unfold us_field in *. lia.
 Qed.
 
-(* hence: start |-> floor_ms, end |-> floor_ms + 1000 on UTC microseconds for every
-   whole-millisecond utcoffset *)
-Corollary bucket_get_float_closed : forall utc off, off mod 1000 = 0 ->
-  round_start_f utc off = Ok (floor_ms utc) /\ round_end_f utc off = Ok (floor_ms utc + 1000).
+(* the code: the edge is converted to UTC first, the floats work on the fields of that reading *)
+Theorem bucket_round_f_exact : forall utc off,
+  bucket_round_start_f utc off = Ok (bucket_round_start_tz utc off) /\
+  bucket_round_end_f utc off = Ok (bucket_round_end_tz utc off).
 Proof.
-  intros utc off H. rewrite round_start_f_exact, round_end_f_exact.
-  destruct (round_tz_whole_ms utc off H) as [-> ->].
-  now rewrite round_start_closed, round_end_closed.
+  intros utc off. unfold bucket_round_start_f, bucket_round_end_f, bucket_round_start_tz,
+    bucket_round_end_tz, astimezone_utc. cbn [fst snd].
+  split; [apply round_start_f_exact | apply round_end_f_exact].
+Qed.
+
+(* hence: start |-> floor_ms, end |-> floor_ms + 1000 on UTC microseconds for EVERY utcoffset
+   (before 49e3288: for whole-millisecond utcoffsets) *)
+Corollary bucket_get_float_closed : forall utc off,
+  bucket_round_start_f utc off = Ok (floor_ms utc) /\ bucket_round_end_f utc off = Ok (floor_ms utc + 1000).
+Proof.
+  intros utc off. destruct (bucket_round_f_exact utc off) as [-> ->].
+  destruct (bucket_round_tz_closed utc off) as [-> ->]. split; reflexivity.
 Qed.
